@@ -160,7 +160,7 @@ func TestVerifE2PubCounts(t *testing.T) {
 	opts.Logger = nil
 	opts.LogLevel = LOG_FATAL
 	opts.DataPath = t.TempDir()
-	tcpAddr, httpAddr, nsqd := mustStartNSQD(opts)
+	tcpAddr, httpAddr, nsqd := vfStartNSQD(opts)
 	defer nsqd.Exit()
 	topics := []string{"vf_pc_A", "vf_pc_B", "vf_pc_C"}
 	idle := "vf_pc_D" // exists, nobody publishes to it
